@@ -218,6 +218,8 @@ class Interp:
             for a in ("aggs",):
                 if hasattr(v, a):
                     setattr(c, a, dict(getattr(v, a)))
+            if getattr(v, "default_e", None) is not None:
+                c.default_e = v.default_e
         elif isinstance(v, VSet):
             c = VSet(v.dom, v.card, v.kt)
         elif isinstance(v, VObj):
@@ -820,7 +822,11 @@ class Interp:
             sf = getattr(self, "spec_" + n.func.id, None)
             if sf is not None and self.spec:
                 return sf(n, env)
-        # locals() membership idiom
+        # locals() idiom: a read-only view of the current function's local names (see builtins.VLocals)
+        if isinstance(n.func, ast.Name) and n.func.id == "locals" and not n.args and not self.spec and env.lookup("locals") is None:
+            from . import builtins as B
+            fnode = self.fn_stack[-1].node if getattr(self, "fn_stack", None) else None
+            return B.VLocals(env, fnode)
         f = self.ev(n.func, env)
         args = []
         for a in n.args:
@@ -1421,7 +1427,11 @@ class Interp:
         if isinstance(v, VEmptyList) and isinstance(lt, TList):
             return VSeq(z3.K(z3.IntSort(), self.default_of(lt.elem)), z3.IntVal(0), lt.elem, lt.kind)
         if isinstance(v, VDictRec) and not v.fields and isinstance(lt, TMap):
-            return self.empty_map(lt)
+            m = self.empty_map(lt)
+            dflt = getattr(v, "default_value", None)
+            if dflt is not None:
+                m.default_e = unwrap(dflt, lt.v)     # collections.defaultdict(float|int): missing keys read as 0
+            return m
         if isinstance(v, VEmptySet) and isinstance(lt, TSet):
             return self.empty_set(lt)
         if isinstance(lt, (TOpt,)) or lt is TReal:
